@@ -196,7 +196,7 @@ func genHistory(r *ref.SplitMix64, anyStartInWeek bool) (timeCase, bool) {
 	k.ViaStream = r.Chance(1, 3)
 	k.Debug = r.Chance(1, 2)
 	// the start time: near a rollover of one constellation, or anywhere
-	base := time.Date(2017+r.Intn(12), time.Month(1+r.Intn(12)), 1+r.Intn(28), r.Intn(24), r.Intn(60), r.Intn(60), r.Intn(1000)*1e6, time.UTC)
+	base := time.Date(2005+r.Intn(31), time.Month(1+r.Intn(12)), 1+r.Intn(28), r.Intn(24), r.Intn(60), r.Intn(60), r.Intn(1000)*1e6, time.UTC)
 	T := base
 	if r.Chance(1, 2) {
 		cons := ref.TimedConstellations[r.Intn(4)]
@@ -306,6 +306,58 @@ func genHistory(r *ref.SplitMix64, anyStartInWeek bool) (timeCase, bool) {
 		}
 		streams = append(streams, st)
 	}
+	// Sometimes two constellations carry bit-identical timestamps in adjacent messages
+	// (GPS and Galileo of one epoch always do; BeiDou does 14 s later): the second
+	// stream is rebuilt as a shifted copy of the first and the two are zipped.
+	coupled := -1
+	if len(streams) >= 2 && r.Chance(1, 3) {
+		var cand []int
+		for i, s := range streams {
+			if s.name != "Glonass" {
+				cand = append(cand, i)
+			}
+		}
+		if len(cand) >= 2 {
+			a := cand[r.Intn(len(cand))]
+			b := a
+			for b == a {
+				b = cand[r.Intn(len(cand))]
+			}
+			shift := ref.ScaleOffsetMs(streams[a].name) - ref.ScaleOffsetMs(streams[b].name)
+			ok := true
+			var nb []timeMsg
+			for i, m := range streams[a].msgs {
+				u := time.UnixMilli(m.TrueMs + shift).UTC()
+				if i == 0 {
+					inWeek := ref.WeekStartUTC(streams[b].name, u).Equal(ref.WeekStartUTC(streams[b].name, T))
+					if !inWeek || (!anyStartInWeek && u.Before(T)) {
+						ok = false
+						break
+					}
+				}
+				tp := ref.TypesOf(streams[b].name)[r.Intn(2)]
+				nb = append(nb, timeMsg{Type: tp, TrueMs: u.UnixMilli(), TS: ref.Timestamp(streams[b].name, u)})
+			}
+			if ok {
+				// zip a and b into one stream entry so that equal timestamps are adjacent
+				var z []timeMsg
+				for i := range nb {
+					if r.Chance(1, 2) {
+						z = append(z, streams[a].msgs[i], nb[i])
+					} else {
+						z = append(z, nb[i], streams[a].msgs[i])
+					}
+				}
+				streams[a].msgs = z
+				streams = append(streams[:b], streams[b+1:]...)
+				coupled = a
+				if b < a {
+					coupled = a - 1
+				}
+			}
+		}
+	}
+	_ = coupled
 	// interleave, keeping each constellation's own order; splice illegal timestamps anywhere
 	idx := make([]int, len(streams))
 	remaining := 0
